@@ -12,6 +12,7 @@
    running, already gone or never started."
 -/
 import ControlModel.Model.ExecTask
+import ControlModel.Model.ExecOverlap
 
 namespace ExecTask
 
@@ -155,5 +156,87 @@ def neverFrom (c : Cfg) (P : St → Op → Bool) (s : St) : List Op → Bool
 def never (c : Cfg) (P : St → Op → Bool) (k : Kind) (b : Beh) (ops : List Op) : Bool :=
   let (s, r) := init c k b
   if r.halts then true else neverFrom c P s ops
+
+/-! ### schedules with overlapping requests
+
+The property is the SAME predicate (`SpecAll`), evaluated on the schedule and the results read request by
+request. Only the order of the two requests of an overlap has to be fixed for the two clauses that scan the
+schedule: `killOk` does not depend on it; `stoppedLast` ("a STOP was answered and no child started since") reads
+an overlapping START and STOP as STOP first — whichever of the two the executor served first is a legitimate order,
+so a child that lives on after the pair is not held against the STOP. Nothing else is relaxed: no crash, no hang,
+at most one terminal status, nothing after it, no survivors of a carried-out KILL — whatever the interleaving. -/
+
+/-- the requests of a schedule with their results, overlaps flattened (`rs` = the results after LAUNCH's) -/
+def specPairs : List Item → List IRes → List (Op × Res)
+  | .one op :: is, .one r :: rs => (op, r) :: specPairs is rs
+  | .par a b :: is, .par ra rb :: rs =>
+    (if a = .start && b = .stop then [(b, rb), (a, ra)] else [(a, ra), (b, rb)]) ++ specPairs is rs
+  | .par a _ :: _, .one r :: _ => [(a, r)]          -- the overlap got the executor stuck: one result, the last
+  | _, _ => []
+
+/-- the flattened view of an observation of a schedule of items -/
+def IObs.flat (items : List Item) (o : IObs) : List Op × Obs :=
+  match o.res with
+  | .one r0 :: rs =>
+    let ps := specPairs items rs
+    (ps.map (·.1), { res := r0 :: ps.map (·.2), emits := o.emits, alive := o.alive, sigs := o.sigs })
+  | _ => ([], { res := [], emits := o.emits, alive := o.alive, sigs := o.sigs })
+
+/-- The property on an observation of a schedule with overlaps. -/
+def SpecAllI (k : Kind) (items : List Item) (o : IObs) : Bool :=
+  let (ops, fo) := o.flat items
+  SpecAll k ops fo
+
+/-- a stuck result anywhere in the results of a schedule of items -/
+def IRes.stuck : IRes → Bool
+  | .one r => r.stuck
+  | .par ra rb => ra.stuck || rb.stuck
+
+def noStuckI (rs : List IRes) : Bool := rs.all (fun r => !r.stuck)
+
+/-! ### overlaps the code does not survive / does not serve (excluded hypotheses of the overlap theorems) -/
+
+/-- finding `kill_overlaps_start_panics`: a KILL and a request that starts a child (START of a basic task,
+    trigger of a hook) overlap on an active task. Kill sets t.taskCmd = nil under startBasicTask: the executor
+    panics — or, when Kill ran first, the child is started for a task that has already reported its terminal status. -/
+def overlapKillSpawn (s : St) (a b : Op) : Bool :=
+  s.active && ((a = .kill && spawns s.kind b) || (spawns s.kind a && b = .kill))
+
+/-- finding `overlapping_kills_two_terminals`: two KILLs overlap on an active basic/hook task: both handlers find
+    the task (it is removed from activeTasks only by the goroutine), both goroutines call Kill. -/
+def overlapKillKill (s : St) (a b : Op) : Bool :=
+  s.active && s.kind.basicLike && a = .kill && b = .kill
+
+/-- a predicate on requests, read on a schedule element: an overlap meets it if either request does in the state
+    in which the pair arrives -/
+def liftReq (P : St → Op → Bool) (s : St) : Item → Bool
+  | .one op => P s op
+  | .par a b => P s a || P s b
+
+/-- a predicate on overlapping pairs, read on a schedule element -/
+def liftPair (Q : St → Op → Op → Bool) (s : St) : Item → Bool
+  | .one _ => false
+  | .par a b => Q s a b
+
+/-- `P` holds of no (state, element) pair that ANY run of the schedule delivers. -/
+def neverFromI (c : Cfg) (P : St → Item → Bool) (s : St) : List Item → Bool
+  | [] => true
+  | it :: rest =>
+    if !s.loop then true
+    else if P s it then false
+    else
+      match it with
+      | .one op =>
+        let (s', r) := step c s op
+        if r.halts then true else neverFromI c P s' rest
+      | .par a b =>
+        (parOutcomes c s a b).all (fun o =>
+          match o with
+          | .halt _ => true
+          | .done s' _ _ => neverFromI c P s' rest)
+
+def neverI (c : Cfg) (P : St → Item → Bool) (k : Kind) (b : Beh) (items : List Item) : Bool :=
+  let (s, r) := init c k b
+  if r.halts then true else neverFromI c P s items
 
 end ExecTask
